@@ -211,17 +211,23 @@ func TestC20(t *testing.T) {
 		t.Fatal(err)
 	}
 	msgs := pickMsgs(vh.Sub(seed, "c20-msgs"), all, 20)
-	genv, err := newGateEnv(msgs[:len(msgs)-1])
+	genv, err := newGateEnv(msgs)
 	if err != nil {
 		t.Fatal(err)
 	}
 	var glist []*msgInfo
-	for _, mi := range genv.layouts {
-		glist = append(glist, mi)
+	for _, mi := range all {
+		if genv.layouts[mi.Msg.GetID()] == mi {
+			glist = append(glist, mi)
+		}
 	}
-	other := msgs[len(msgs)-1]
-	for genv.layouts[other.Msg.GetID()] != nil {
-		t.Fatal("id clash in message pick")
+	// a message type whose id is not in the dialect
+	var other *msgInfo
+	for _, mi := range all {
+		if genv.layouts[mi.Msg.GetID()] == nil {
+			other = mi
+			break
+		}
 	}
 	nHist := vh.Pick(300, 3000)
 	cuts := 0
